@@ -191,7 +191,6 @@ impl AsyncFileSystem for AsyncMemoryFS {
     async fn create_dir(&self, path: &str) -> VfsResult<()> {
         // the parent check and the insertion happen under one write lock
         let map = &mut self.handle.write().await.files;
-        ensure_has_parent(map, path)?;
         let entry = map.entry(path.to_string());
         match entry {
             Entry::Occupied(file) => {
@@ -201,6 +200,7 @@ impl AsyncFileSystem for AsyncMemoryFS {
                 }
             }
             Entry::Vacant(_) => {
+                ensure_has_parent(map, path)?;
                 map.insert(
                     path.to_string(),
                     AsyncMemoryFile {
